@@ -330,9 +330,9 @@ theorem run_writes_open {K : KeySetOps B} {es : List (Nat × Bytes)} : ∀ (ds :
   | nil => intro b extra rest h hb; exact ⟨b, rfl, by simpa using h, hb, rfl, rfl⟩
   | cons d t ih =>
     intro b extra rest h hb
-    have hstep : b.step K (.write d) = some ({ (b.write d) with sw := { (b.write d).sw with size := (b.write d).sw.size + d.length } }) := by
+    have hstep : b.step K (.write d) = some ({ (b.write d) with sw := { (b.write d).sw with size := (b.write d).sw.size + d.length, crcRev := d :: (b.write d).sw.crcRev } }) := by
       simp [Builder.step, Builder.swWrite, hb]
-    have hp : Pre K ({ (b.write d) with sw := { (b.write d).sw with size := (b.write d).sw.size + d.length } }) es (extra ++ d) := by
+    have hp : Pre K ({ (b.write d) with sw := { (b.write d).sw with size := (b.write d).sw.size + d.length, crcRev := d :: (b.write d).sw.crcRev } }) es (extra ++ d) := by
       have := write_pre h d
       exact ⟨this.written, this.size, this.offset, this.keys, this.asc, this.first, this.minKey, this.maxKey, this.keysVal⟩
     obtain ⟨b', h1, h2, h3, h4, h5⟩ := ih _ (extra ++ d) rest hp (by simpa [Builder.write] using hb)
@@ -666,7 +666,7 @@ theorem iterate_eq {K : KeySetOps B} {r : Reader B} {es : List (Nat × Bytes)}
   cases hi : es[i]? with
   | none => simp
   | some e =>
-    simp only [Option.map_some]
+    simp only [Option.map_some, Reader.valueAt]
     rw [getBlock_repr h i e hi]
 
 /-! ## min / max / count -/
